@@ -34,17 +34,31 @@ def verus(P, impls, u, prop="C05"):
     im = ims[0]
     ty = P.ty_generic()
     g, w, wf = hdr(im, ty)
-    arms = []
-    for v in P.variants:
-        e = "t"
-        if P.kind == "enum":
-            e = "h_push(%s, hv_usize(%dusize))" % (e, v.idx)
-        for f in hashed(v):
-            e = "h_push(%s, %s)" % (e, _item(f, "x%d" % f.idx))
-        arms.append("%s => %s," % (P.pat(v, "x"), e))
-    u.verus_items.append("pub open spec fn hash_oracle%s(x: &%s, t: int) -> int %s {\n    match *x {\n        %s\n    }\n}\n"
-                         % (g, ty, wf, "\n        ".join(arms)))
-    u.verus_edits[("Hash", "hash")] = "h_tr(final({p1})) == hash_oracle({p0}, h_tr(old({p1})))"
+    ds = P.discriminants() if P.kind == "enum" else []
+    # admissible variant-tag encodings (each used consistently for every variant): position as usize (what the
+    # pinned tree emits), position as isize / u32, declared discriminant as isize.  The property only needs
+    # the tags to be distinct per variant; accepting several consistent encodings keeps a harmless change
+    # of the encoding from alarming while a MIXED encoding (two variants sharing a tag) still fails.
+    encs = [("", lambda v: "hv_usize(%dusize)" % v.idx)]
+    if P.kind == "enum":
+        encs += [("_pi", lambda v: "hv_isize(%disize)" % v.idx), ("_pu32", lambda v: "hv_u32(%du32)" % v.idx),
+                 ("_di", lambda v: "hv_isize(%s)" % ("(%disize)" % ds[v.idx]))]
+    first_arms = None
+    for suffix, tagf in encs:
+        arms = []
+        for v in P.variants:
+            e = "t"
+            if P.kind == "enum":
+                e = "h_push(%s, %s)" % (e, tagf(v))
+            for f in hashed(v):
+                e = "h_push(%s, %s)" % (e, _item(f, "x%d" % f.idx))
+            arms.append("%s => %s," % (P.pat(v, "x"), e))
+        if first_arms is None:
+            first_arms = arms
+        u.verus_items.append("pub open spec fn hash_oracle%s%s(x: &%s, t: int) -> int %s {\n    match *x {\n        %s\n    }\n}\n"
+                             % (suffix, g, ty, wf, "\n        ".join(arms)))
+    arms = first_arms
+    u.verus_edits[("Hash", "hash")] = " || ".join("h_tr(final({p1})) == hash_oracle%s({p0}, h_tr(old({p1})))" % sfx for sfx, _ in encs)
     contract = "trace after hash(self, state) == match self { %s } where t = trace before" % " ".join(arms)
     u.verus_obls["%s::hash" % P.name] = ("%s/%s/Hash::hash/ensures" % (prop, P.pid), contract)
     # ---- key equality and the two lemmas (code-independent)
